@@ -90,6 +90,9 @@ def cases(tier, seed):
         for cont in ("ndarray", "DataFrame"):
             for r in range(reps):
                 out.append({"id": "exh/%s/%s/%d" % (name, cont, r), "kind": "exh", "inj": name, "cont": cont, "seed": [seed, 20, r], "cost": 3})
+    for name in INJECTORS:
+        for r in range(reps * 2):
+            out.append({"id": "reuse/%s/%d" % (name, r), "kind": "reuse", "inj": name, "cont": "both", "seed": [seed, 2000, r], "cost": 0.5})
     nr = 100 if tier == "quick" else 900
     for name in INJECTORS:
         for cont in ("ndarray", "DataFrame"):
@@ -100,7 +103,7 @@ def cases(tier, seed):
 
 def targets(tier):
     k = 1 if tier == "quick" else 8
-    t = {"calls_checked": 8000 * k, "contract_evaluations": 8000 * k, "resampling_logs_parsed": 500 * k}
+    t = {"calls_checked": 8000 * k, "contract_evaluations": 8000 * k, "resampling_logs_parsed": 500 * k, "calls_on_reused_instance": 300 * k}
     for name in INJECTORS:
         for cont in ("ndarray", "DataFrame"):
             for w in ("empty", "interior", "full"):
@@ -179,10 +182,12 @@ def call(inj, name, ctx, base, *a, **k):
     return out
 
 
-def check_one(name, cont, data, cls, tcol, fcols, lo, hi, rng, ctx, case):
-    """one injector call on window [lo, hi); returns False after a violation"""
+def check_one(name, cont, data, cls, tcol, fcols, lo, hi, rng, ctx, case, inj=None):
+    """one injector call on window [lo, hi); returns False after a violation.  inj: an injector instance to re-use (an injector is a
+    callable object and may be applied to many data sets of either container type), default a fresh one"""
     n = len(data)
-    inj = mon(name)
+    fresh = inj is None
+    inj = mon(name) if inj is None else inj
     sig = "C20/" + name
     wkind = "empty" if lo == hi else ("full" if (lo == 0 and hi == n) else "interior")
     base = dict(injector=name, container=cont, window=[lo, hi], data=cells(data).tolist() if n <= 14 else "omitted(%d rows)" % n)
@@ -198,7 +203,7 @@ def check_one(name, cont, data, cls, tcol, fcols, lo, hi, rng, ctx, case):
             if not (eq(B[i, 0], A[i, 1]) and eq(B[i, 1], A[i, 0])):
                 ctx.violation(sig + "/effect", "row %d of the window: columns not exchanged (%r, %r) -> (%r, %r)" % (i, A[i, 0], A[i, 1], B[i, 0], B[i, 1]), **base)
                 return False
-        back = call(mon(name), name, ctx, base, out, lo, hi, fcols[0], fcols[1])
+        back = call(mon(name) if fresh else inj, name, ctx, base, out, lo, hi, fcols[0], fcols[1])
         if back is None:
             return False
         if not (cells(back) == A).all():
@@ -231,7 +236,7 @@ def check_one(name, cont, data, cls, tcol, fcols, lo, hi, rng, ctx, case):
             if not eq(B[i, ti], exp):
                 ctx.violation(sig + "/effect", "row %d: label %r -> %r, expected %r (classes %r <-> %r)" % (i, A[i, ti], B[i, ti], exp, c1, c2), **base)
                 return False
-        back = call(mon(name), name, ctx, base, out, lo, hi, tcol, c1, c2)
+        back = call(mon(name) if fresh else inj, name, ctx, base, out, lo, hi, tcol, c1, c2)
         if back is None:
             return False
         if not all(eq(x, y) for x, y in zip(cells(back)[:, ti], A[:, ti])):
@@ -361,7 +366,7 @@ def check_one(name, cont, data, cls, tcol, fcols, lo, hi, rng, ctx, case):
                 if abs(d[i] - w) > 1e-9:
                     ctx.violation(sig + "/effect", "noise at window position %d is %r, the walk from x0=%r with the logged steps gives %r" % (i, d[i], x0, w), **base)
                     return False
-        out2 = call(mon(name), name, ctx, base, data, lo, hi, fcols[0], x0, random_state=rs)
+        out2 = call(mon(name) if fresh else inj, name, ctx, base, data, lo, hi, fcols[0], x0, random_state=rs)
         if out2 is None:
             return False
         if not (cells(out2) == B).all():
@@ -421,6 +426,26 @@ def run_case(case, ctx):
         check_one(name, cont, data, cls, tcol, fcols, lit["window"][0], lit["window"][1], rng, ctx, case)
         return
     nontriv = 0
+    if case["kind"] == "reuse":
+        # one injector object applied to a sequence of data sets of alternating container types
+        inj = mon(name)
+        order = [str(c) for c in rng.choice(["ndarray", "DataFrame"], size=int(rng.integers(3, 7)))]
+        if len(set(order)) == 1:
+            order[-1] = "ndarray" if order[0] == "DataFrame" else "DataFrame"
+        for c in order:
+            n = int(rng.integers(4, 30))
+            data, cls, tcol, fcols = make_data(rng, n, c)
+            lo = int(rng.integers(0, n + 1))
+            hi = int(rng.integers(lo, n + 1))
+            if name == "FeatureCoverInjector":
+                lo, hi = 0, n
+            if not check_one(name, c, data, cls, tcol, fcols, lo, hi, rng, ctx, case, inj=inj):
+                return
+            ctx.count("calls_on_reused_instance")
+        ctx.nontrivial = True
+        ctx.sample = {"kind": "re-used injector instance", "injector": name, "container_sequence": order}
+        ctx.digest = "reuse-%s-%s-%s" % (name, order, case["seed"])
+        return
     if case["kind"] == "exh":
         n = int(rng.integers(3, 13))
         data, cls, tcol, fcols = make_data(rng, n, cont)
